@@ -73,6 +73,8 @@ func c10Callers() []c10Caller {
 		{"owner", cUsr1, false, false},
 		{"user-with-bypass-permission", cUsr2, true, false},
 		{"user-without-bypass-permission", cUsr3, false, false},
+		// may bypass governance retention on other keys of the bucket, not on the protected one
+		{"user-with-bypass-permission-on-other-keys-only", cUp, false, false},
 	}
 }
 
@@ -126,6 +128,16 @@ func c10Ops() []c10Op {
 			}
 			return NewReq("POST", "/"+c10Bucket, "delete", nil, []byte("<Delete><Object><Key>"+c10Key+"</Key>"+v+"</Object></Delete>"))
 		}},
+		{Name: "DeleteObjects-another-locked-key-first", Kind: "delete-version", Build: func(vid string, m map[string]string) *gw.Req {
+			v, sv := "", ""
+			if vid != "" {
+				v = "<VersionId>" + vid + "</VersionId>"
+			}
+			if m["scratchvid"] != "" {
+				sv = "<VersionId>" + m["scratchvid"] + "</VersionId>"
+			}
+			return NewReq("POST", "/"+c10Bucket, "delete", nil, []byte("<Delete><Object><Key>scratch/tmp</Key>"+sv+"</Object><Object><Key>"+c10Key+"</Key>"+v+"</Object></Delete>"))
+		}},
 		{Name: "DeleteBucket", Kind: "delete-bucket", Build: func(vid string, m map[string]string) *gw.Req { return NewReq("DELETE", "/"+c10Bucket, "", nil, nil) }},
 		{Name: "PutObjectRetention-shorten-governance", Kind: "retention", Mode: "GOVERNANCE", Date: "shorter", Build: func(vid string, m map[string]string) *gw.Req {
 			return NewReq("PUT", pk, vq("retention", vid), nil, ret("GOVERNANCE", shorter()))
@@ -166,7 +178,7 @@ func c10Setup(cfg gw.Opts, stt c10State) (*World, string, map[string]string) {
 	f := w.F
 	Must(f.CreateBucket(gw.Root, c10Bucket, "x-amz-bucket-object-lock-enabled", "true"), "create lock bucket")
 	Must(f.Do(gw.Root, "PATCH", "/change-bucket-owner", gw.Q("bucket", c10Bucket, "owner", "usr1"), nil, nil), "chown")
-	pol := fmt.Sprintf(`{"Statement":[{"Effect":"Allow","Principal":["usr1","usr2","usr3"],"Action":"s3:*","Resource":["arn:aws:s3:::%s","arn:aws:s3:::%s/*"]},{"Effect":"Deny","Principal":["usr1","usr3"],"Action":"s3:BypassGovernanceRetention","Resource":"arn:aws:s3:::%s/*"}]}`, c10Bucket, c10Bucket, c10Bucket)
+	pol := fmt.Sprintf(`{"Statement":[{"Effect":"Allow","Principal":["usr1","usr2","usr3","up1"],"Action":"s3:*","Resource":["arn:aws:s3:::%s","arn:aws:s3:::%s/*"]},{"Effect":"Deny","Principal":["usr1","usr3"],"Action":"s3:BypassGovernanceRetention","Resource":"arn:aws:s3:::%s/*"},{"Effect":"Deny","Principal":["up1"],"Action":"s3:BypassGovernanceRetention","Resource":"arn:aws:s3:::%s/%s"}]}`, c10Bucket, c10Bucket, c10Bucket, c10Bucket, c10Key)
 	Must(f.Do(gw.Root, "PUT", "/"+c10Bucket, "policy", nil, []byte(pol)), "policy")
 	if stt.Before != nil {
 		stt.Before(f)
@@ -174,6 +186,16 @@ func c10Setup(cfg gw.Opts, stt c10State) (*World, string, map[string]string) {
 	resp := Must(f.Put(gw.Root, c10Bucket, c10Key, c10Body, "x-amz-meta-guard", "g1", "Content-Type", "text/protected"), "put protected")
 	vid := resp.Header.Get("x-amz-version-id")
 	Must(f.Put(gw.Root, c10Bucket, "other", []byte("copy source data")), "put other")
+	// another object under governance retention, which some callers may bypass
+	sresp := Must(f.Put(gw.Root, c10Bucket, "scratch/tmp", []byte("scratch data")), "put scratch")
+	svid := sresp.Header.Get("x-amz-version-id")
+	if !stt.Deflt {
+		sq := "retention"
+		if svid != "" {
+			sq += "&" + gw.Q("versionId", svid)
+		}
+		Must(f.Do(gw.Root, "PUT", gw.ObjPath(c10Bucket, "scratch/tmp"), sq, nil, []byte("<Retention><Mode>GOVERNANCE</Mode><RetainUntilDate>"+c10Far()+"</RetainUntilDate></Retention>")), "scratch retention")
+	}
 	if stt.After != nil {
 		stt.After(f, vid)
 	}
@@ -181,7 +203,7 @@ func c10Setup(cfg gw.Opts, stt c10State) (*World, string, map[string]string) {
 	mp := Must(f.Do(gw.Root, "POST", gw.ObjPath(c10Bucket, c10Key), "uploads", nil, nil), "create mpu")
 	up := xmlFieldS(mp.Body, "UploadId")
 	pr := Must(f.Do(gw.Root, "PUT", gw.ObjPath(c10Bucket, c10Key), gw.Q("uploadId", up, "partNumber", "1"), nil, []byte("multipart replacement data")), "upload part")
-	return w, vid, map[string]string{"upload": up, "etag": pr.Header.Get("ETag")}
+	return w, vid, map[string]string{"upload": up, "etag": pr.Header.Get("ETag"), "scratchvid": svid}
 }
 
 // protected version still intact?
@@ -204,7 +226,7 @@ func c10Intact(f *Fx, vid string) (bool, string) {
 }
 
 func C10(r *ck.Run) {
-	r.Rule("for every protected state (legal hold, COMPLIANCE +10y, GOVERNANCE +10y, bucket default COMPLIANCE, bucket default GOVERNANCE) × {lock bucket on a gateway with versioning directory, lock bucket on a gateway without}: every program of potentially destructive requests — 16 operations (overwrite by PUT / copy / multipart completion, delete by key / by version / batch, bucket deletion, retention shorten / extend / downgrade by key and by version, legal hold off, dropping the bucket default rule, suspending versioning, a policy granting bypass to everyone) × 5 callers (root, admin, owner, user with and without the bypass permission) × bypass header on/off — of length 1 (all symbols) and length 2 (quick: reduced caller set; thorough: all symbols, plus length 3 reduced); after EVERY step the protected version is read back (by version id where versioned) and its lock attributes are compared with a reference model in which protection ends only through a legal-hold release or an authorised governance bypass; distinct = (configuration, state, program)")
+	r.Rule("for every protected state (legal hold, COMPLIANCE +10y, GOVERNANCE +10y, bucket default COMPLIANCE, bucket default GOVERNANCE) × {lock bucket on a gateway with versioning directory, lock bucket on a gateway without}: every program of potentially destructive requests — 17 operations (overwrite by PUT / copy / multipart completion, delete by key / by version / batch / batch that names another locked key first, bucket deletion, retention shorten / extend / downgrade by key and by version, legal hold off, dropping the bucket default rule, suspending versioning, a policy granting bypass to everyone) × 6 callers (root, admin, owner, user with, without, and with a bypass permission that covers other keys only) × bypass header on/off — of length 1 (all symbols) and length 2 (quick: reduced caller set; thorough: all symbols, plus length 3 reduced); after EVERY step the protected version is read back (by version id where versioned) and its lock attributes are compared with a reference model in which protection ends only through a legal-hold release or an authorised governance bypass; distinct = (configuration, state, program)")
 	r.Assume("retention dates lie 10 years ahead (1 day for bucket defaults), so no date passes during a run; root and admin may or may not count as holders of the bypass permission (either is admitted); a bucket default retention protects the objects written under it for its period whatever happens to the rule later (S3 stamps it on the object)")
 	cfgs := []gw.Opts{{Versioning: true}, {}}
 	states := c10States()
